@@ -246,6 +246,9 @@ func TestSchedEnum(t *testing.T) {
 	bad := 0
 	unit := 0
 	perCase := map[int]int{}
+	// a bound in schedules per work unit keeps the deepest cases inside the tier's time; units cut off by it are
+	// counted and take the claim of completeness away
+	race.LeafCap = 5000
 	// work units: (case, first three option values); a unit whose subtree does not exist costs one run
 	for ci, cs := range pairCases {
 		cs.Seed = uint64(ci)
@@ -255,7 +258,11 @@ func TestSchedEnum(t *testing.T) {
 				continue
 			}
 			fixed := []int{sub & 1, (sub >> 1) & 1, (sub >> 2) & 1}
-			cnt := enumerate(t, cs, bound, fixed, func(r execResult) {
+			b := bound
+			if b < 0 && len(cs.Reqs) > 2 {
+				b = 4 // three requests: all schedules with at most four pre-emptions
+			}
+			cnt := enumerate(t, cs, b, fixed, func(r execResult) {
 				c2 := cs
 				c2.Choice = r.Choices
 				record(c2, r)
@@ -273,8 +280,17 @@ func TestSchedEnum(t *testing.T) {
 	for ci, cnt := range perCase {
 		rec.ClassN(fmt.Sprintf("sched_enum_pair%d_%s", ci, pairName(pairCases[ci])), cnt)
 	}
-	if bound < 0 && shard == 0 {
-		rec.Exhaustive(fmt.Sprintf("all interleavings (storage/LN-call granularity) of the %d request sets", len(pairCases)), 0)
+	if race.Truncated > 0 {
+		rec.ClassN("sched_enum_work_units_cut_off_at_5000_schedules", race.Truncated)
+	}
+	if bound < 0 && race.Truncated == 0 {
+		pairs := 0
+		for _, cs := range pairCases {
+			if len(cs.Reqs) == 2 {
+				pairs++
+			}
+		}
+		rec.Exhaustive(fmt.Sprintf("shard %d of %d: all interleavings (storage/LN-call granularity) of its share of the %d two-request sets; three-request sets with <= 4 pre-emptions", shard, n, pairs), 0)
 	}
 	if bad > 0 {
 		t.Fatalf("%d violating schedules", bad)
